@@ -125,6 +125,24 @@ pub fn universe(rng: &mut Rng, cfg: GenCfg, case: u64) -> (M, Envelope) {
     let m = gen::model_for_case(rng, cfg, case);
     let route = if m.has_node_subject_node() { Route::Decode } else { *rng.pick(&[Route::Plain, Route::Shuffled, Route::ReplaceSubject, Route::Detour, Route::Decode]) };
     let e = gen::build(&m, route, rng);
+    // one case in 14: the envelope is used THREE times inside another one, at two depths, by cloning the one
+    // value (the clones share their allocation; a re-decoded copy does not) - results may not depend on that
+    fn msize(m: &M) -> usize {
+        match m {
+            M::Node(s, a) => 1 + msize(s) + a.iter().map(msize).sum::<usize>(),
+            M::Assertion(p, o) => 1 + msize(p) + msize(o),
+            M::Wrapped(x) => 1 + msize(x),
+            _ => 1,
+        }
+    }
+    if rng.chance(1, 14) && msize(&m) <= 40 && !m.has_node_subject_node() && !matches!(m, M::Assertion(..)) {
+        let txt = |s: &str| M::Leaf(crate::spec::Item::Text(s.into()));
+        let deep_m = M::Wrapped(Box::new(M::Node(Box::new(txt("holder")), vec![M::Assertion(Box::new(txt("deep")), Box::new(m.clone()))])));
+        let m2 = M::Node(Box::new(txt("aliased")), vec![M::Assertion(Box::new(txt("one")), Box::new(m.clone())), M::Assertion(Box::new(txt("two")), Box::new(m.clone())), M::Assertion(Box::new(txt("three")), Box::new(deep_m))]);
+        let deep_e = Envelope::new("holder").add_assertion("deep", e.clone()).wrap_envelope();
+        let e2 = Envelope::new("aliased").add_assertion("three", deep_e).add_assertion("one", e.clone()).add_assertion("two", e.clone());
+        return (m2, e2);
+    }
     (m, e)
 }
 
